@@ -53,7 +53,7 @@ class Prop:
     shard = 30
     rule = ("plain trees: every ordered forest with <= N nodes (N=5 quick, 6 thorough) with three labelings each (distinct strings; "
             "equal-comparing objects under distinct explicit data_ids; mixed with clones in different parents) plus seeded random trees "
-            "up to 25 (thorough 30) nodes; TYPED trees (every forest <= 4 nodes with alternating kinds + random ones; the plain queries are observed "
+            "up to 25 (thorough 34) nodes; TYPED trees (every forest <= 4 nodes with alternating kinds + random ones; the plain queries are observed "
             "through the ANY_KIND / any_kind=True variants TypedNode offers); DEEP random trees (depth >= 8) and SPINES of depth 8..12 that run "
             "through a random position of every sibling list; WIDE forests "
             "whose many siblings (and top-level nodes) hold equal-comparing data of several sorts (value-equal objects, equal tuples, "
@@ -107,9 +107,9 @@ class Prop:
                 # (c) clones: label by depth, falls back to explicit ids when siblings would collide
                 univ = ["s:a", "s:b", "e:5", "e:5"]
                 yield dict(univ=univ, nodes=B.shape_to_nodes(shape, lambda i, d, s: ((d + s) % 4, None, None if s < 4 else f"x{i}")))
-        nrand = 40 if tier == "quick" else 250
+        nrand = 40 if tier == "quick" else 400
         for _ in range(nrand):
-            n = rng.randint(6, 25 if tier == "quick" else 30)
+            n = rng.randint(6, 25 if tier == "quick" else 34)
             shape = H.random_shape(rng, n, deep=rng.choice([0.2, 0.5, 0.85]))
             univ = ["e:1"] * n
             yield dict(univ=univ, nodes=B.shape_to_nodes(shape, lambda i, d, s: (i, None, f"k{i}")))
@@ -118,13 +118,13 @@ class Prop:
             for shape in H.forests(n):
                 yield dict(typed=True, univ=["e:1"] * n,
                            nodes=B.shape_to_nodes(shape, lambda i, d, s: (i, "ab"[(i + d) % 2], f"k{i}")))
-        for _ in range(20 if tier == "quick" else 100):
+        for _ in range(20 if tier == "quick" else 150):
             n = rng.randint(6, 16 if tier == "quick" else 22)
             shape = H.random_shape(rng, n, deep=rng.choice([0.2, 0.5, 0.85]))
             ks = [rng.choice("abc") for _ in range(n)]
             yield dict(typed=True, univ=["e:1"] * n, nodes=B.shape_to_nodes(shape, lambda i, d, s, ks=ks: (i, ks[i], f"k{i}")))
         # (e) deep trees: depth >= 8
-        for _ in range(14 if tier == "quick" else 80):
+        for _ in range(14 if tier == "quick" else 120):
             for _try in range(50):
                 n = rng.randint(10, 22 if tier == "quick" else 28)
                 shape = H.random_shape(rng, n, deep=rng.choice([0.8, 0.9, 0.97]))
@@ -136,13 +136,13 @@ class Prop:
             yield dict(univ=EQ_UNIV, nodes=nodes)
         # (g) spines: depth 8..12, the chain continues through a RANDOM position of each sibling list (so the deepest
         #     leaf, the path to it and the common ancestors are not always first children), small side branches
-        for _ in range(12 if tier == "quick" else 60):
+        for _ in range(12 if tier == "quick" else 100):
             shape = spine_shape(rng, rng.randint(8, 12))
             lab = rng.choice([None, 0, 2])
             yield dict(univ=EQ_UNIV, nodes=B.shape_to_nodes(
                 shape, lambda i, d, s, lab=lab: ((i % len(EQ_UNIV)) if lab is None else lab + (i % 2), None, f"k{i}")))
         # (f) wide forests: many siblings / top-level nodes with equal-comparing data of several sorts
-        for _ in range(14 if tier == "quick" else 60):
+        for _ in range(14 if tier == "quick" else 100):
             n = rng.randint(8, 18 if tier == "quick" else 24)
             shape = H.random_shape(rng, n, deep=rng.choice([0.0, 0.05, 0.15]))
             lab = [rng.randrange(len(EQ_UNIV)) for _ in range(n)]
